@@ -298,6 +298,16 @@ def ref_place(fn, operand, limit=12):
     for _ in range(limit):
         ty = fn.local_ty(l)
         if not (ty.startswith("&") or ty.startswith("*")):
+            # a closure environment / tuple holding captured references: continue with the captured reference
+            if path:
+                dsa = [d for d in fn.defs().get(l, []) if not fn.is_cleanup(d[0]) and d[1] is not None and not d[2]["lhs"].get("p")]
+                if len(dsa) == 1 and dsa[0][2]["rv"]["r"] == "agg" and ("closure" in dsa[0][2]["rv"]["kind"] or "tuple" in dsa[0][2]["rv"]["kind"]) \
+                        and path[0] < len(dsa[0][2]["rv"]["a"]) and op_place(dsa[0][2]["rv"]["a"][path[0]]) is not None:
+                    ap = dsa[0][2]["rv"]["a"][path[0]]["pl"]
+                    if fn.local_ty(ap["l"]).startswith("&") or fn.local_ty(ap["l"]).startswith("*"):
+                        path = tuple(e["f"] for e in ap.get("p", []) if isinstance(e, dict) and "f" in e) + path[1:]
+                        l = ap["l"]
+                        continue
             return (l, path)
         ds = [d for d in fn.defs().get(l, []) if not fn.is_cleanup(d[0]) and not (d[1] is not None and d[2].get("lhs", {}).get("p"))]
         if len(ds) != 1:
